@@ -715,6 +715,7 @@ func checkC18(c *Ctx, r *Report) {
 	escRule(c, r, "C18.ESC")
 	rawRule(c, r, "C18.RAW")
 	c18Num(c, r)
+	c18RawAccept(c, r)
 	sepRule(c, r, "C18.SEP", true)
 	sepRule(c, r, "C18.SEPJ", false)
 	ws := c.fn("writeString")
@@ -1000,4 +1001,209 @@ func c18Num(c *Ctx, r *Report) {
 		}
 	}
 	r.check("C18.NUM", "writeValue: floats are printed by strconv.FormatFloat with a format ParseFloat reads back", token.NoPos, okFmt, "float formatting is not FormatFloat with a constant e/f/g format")
+}
+
+// predTrueSet: for a predicate p(x) bool over one byte/rune parameter, the set of x for which it can
+// answer true (over-approximated by the comparisons of x with constants that guard each answer).
+func predTrueSet(fn *ssa.Function, u ival) (iset, bool) {
+	if len(fn.Params) != 1 || fn.Signature.Results().Len() != 1 {
+		return nil, false
+	}
+	x := ssa.Value(fn.Params[0])
+	var out iset
+	var valSet func(b *ssa.BasicBlock, base iset, v ssa.Value, d int) (iset, bool)
+	valSet = func(b *ssa.BasicBlock, base iset, v ssa.Value, d int) (iset, bool) {
+		if d > 6 {
+			return nil, false
+		}
+		switch t := v.(type) {
+		case *ssa.Const:
+			if t.Value != nil && t.Value.String() == "true" {
+				return base, true
+			}
+			return iset{}, true
+		case *ssa.BinOp:
+			if y, op, k, ok := intCmp(t); ok && sameVal(y, x) {
+				return base.intersect(constraintSet(op, k, u)), true
+			}
+		case *ssa.UnOp:
+			if t.Op == token.NOT {
+				if in, ok := valSet(b, base, t.X, d+1); ok {
+					// complement within base
+					rest := base
+					for _, cv := range in {
+						var nr iset
+						for _, m := range rest {
+							if m.lo < cv.lo {
+								nr = append(nr, ival{m.lo, min64(m.hi, cv.lo-1)})
+							}
+							if m.hi > cv.hi {
+								nr = append(nr, ival{max64(m.lo, cv.hi+1), m.hi})
+							}
+						}
+						rest = nr.norm()
+					}
+					return rest, true
+				}
+			}
+		case *ssa.Phi:
+			var un iset
+			for i, e := range t.Edges {
+				pred := t.Block().Preds[i]
+				es := reachSet(pred, x, u)
+				for _, g := range edgeGuards(pred, t.Block()) {
+					g = normGuard(g)
+					if y, op, k, ok := intCmp(g.cond); ok && sameVal(y, x) {
+						if !g.val {
+							op = negOp(op)
+						}
+						es = es.intersect(constraintSet(op, k, u))
+					}
+				}
+				s, ok := valSet(pred, es, e, d+1)
+				if !ok {
+					return nil, false
+				}
+				un = append(un, s...)
+			}
+			return un.norm(), true
+		}
+		return nil, false
+	}
+	for _, rt := range returnsOf(fn) {
+		s, ok := valSet(rt.Block(), reachSet(rt.Block(), x, u), rt.Results[0], 0)
+		if !ok {
+			return nil, false
+		}
+		out = append(out, s...)
+	}
+	return out.norm(), true
+}
+
+// c18RawAccept: every byte the string writer emits as it is (not as an escape) is a byte the string
+// reader takes as it is: the set of byte values for which the reader's quoted-string loops answer with
+// an error is disjoint from the writer's raw set.
+func c18RawAccept(c *Ctx, r *Report) {
+	r.rule("C18.RAWACCEPT", "bytes rejected by readString (error returns guarded by comparisons of the byte read, or by a byte predicate) ∩ bytes written raw by writeString = ∅")
+	ws, rs := c.fn("writeString"), c.fn("(*parser).readString")
+	if ws == nil || rs == nil {
+		r.undecided("C18.RAWACCEPT", "anchors writeString / (*parser).readString", token.NoPos, "not found")
+		return
+	}
+	// writer's raw set
+	var rn ssa.Value
+	for _, b := range ws.Blocks {
+		for _, in := range b.Instrs {
+			if ex, ok := in.(*ssa.Extract); ok && ex.Index == 2 {
+				if nx, ok := ex.Tuple.(*ssa.Next); ok && nx.IsString {
+					rn = ex
+				}
+			}
+		}
+	}
+	if rn == nil {
+		r.undecided("C18.RAWACCEPT", "writeString: rune loop", ws.Pos(), "no range over the string found (the escaping rule reports the shape)")
+		return
+	}
+	var raw iset
+	loops := loopsOf(ws)
+	for _, b := range ws.Blocks {
+		if innermostLoop(loops, b) == nil {
+			continue
+		}
+		for _, in := range b.Instrs {
+			call, ok := in.(*ssa.Call)
+			if !ok || !call.Call.IsInvoke() || call.Call.Method.Name() != "Write" || len(call.Call.Args) != 1 {
+				continue
+			}
+			if elems, known := sliceLitElems(call.Call.Args[0]); known {
+				if first, isC := elems[0].(*ssa.Const); isC && first.Value != nil && first.Int64() == '\\' {
+					continue
+				}
+			}
+			raw = append(raw, reachSet(b, rn, ival{0, 0x10FFFF})...)
+		}
+	}
+	raw = raw.norm()
+	rawBytes := raw.intersect(iset{{0, 0x7f}})
+	if len(raw.intersect(iset{{0x80, 0x10FFFF}})) > 0 {
+		rawBytes = append(rawBytes, ival{0x80, 0xff}).norm()
+	}
+	// reader's reject set
+	u := ival{0, 255}
+	var reject iset
+	nRet := 0
+	for _, rt := range returnsOf(rs) {
+		if len(rt.Results) != 2 || isNilConst(rt.Results[1]) {
+			continue
+		}
+		// only errors made here: an error handed on from a read of more input (readByte, readEscaped) is a
+		// consequence of that read, not of the byte tests that merely enclose it
+		made := false
+		ev := rt.Results[1]
+		if ex, ok := ev.(*ssa.Extract); ok {
+			ev = ex.Tuple
+		}
+		if call, ok := ev.(*ssa.Call); ok {
+			cal := call.Call.StaticCallee()
+			made = cal != nil && !isScannerFn(c, cal)
+		}
+		if !made {
+			continue
+		}
+		vars := map[ssa.Value]bool{}
+		type predG struct {
+			fn  *ssa.Function
+			arg ssa.Value
+			val bool
+		}
+		var preds []predG
+		for _, g := range blockGuards(rt.Block()) {
+			if len(vars) > 0 {
+				break // only the byte whose test selects this error, not the bytes tested further out
+			}
+			g = normGuard(g)
+			if y, _, _, ok := intCmp(g.cond); ok {
+				if bt, ok := y.Type().Underlying().(*types.Basic); ok && (bt.Kind() == types.Uint8 || bt.Kind() == types.Int32) {
+					vars[y] = true
+				}
+			}
+			if call, ok := g.cond.(*ssa.Call); ok && len(call.Call.Args) == 1 {
+				if pf := call.Call.StaticCallee(); pf != nil && c.inPkg(pf) {
+					if bt, ok := call.Call.Args[0].Type().Underlying().(*types.Basic); ok && (bt.Kind() == types.Uint8 || bt.Kind() == types.Int32) {
+						vars[call.Call.Args[0]] = true
+						preds = append(preds, predG{pf, call.Call.Args[0], g.val})
+					}
+				}
+			}
+		}
+		for v := range vars {
+			s := reachSet(rt.Block(), v, u)
+			for _, pg := range preds {
+				if !sameVal(pg.arg, v) {
+					continue
+				}
+				ts, ok := predTrueSet(pg.fn, u)
+				if !ok {
+					r.undecided("C18.RAWACCEPT", "readString: byte predicate "+fnName(pg.fn), rt.Pos(), "the predicate guarding an error return could not be evaluated")
+					continue
+				}
+				if pg.val {
+					s = s.intersect(ts)
+				}
+			}
+			if len(s) == 1 && s[0] == u {
+				continue // unconstrained: the error does not depend on this byte
+			}
+			nRet++
+			reject = append(reject, s...)
+		}
+	}
+	reject = reject.norm()
+	bad := reject.intersect(rawBytes)
+	r.Tables["C18.RAWACCEPT writer raw bytes"] = rawBytes.String()
+	r.Tables["C18.RAWACCEPT reader rejected bytes"] = reject.String()
+	r.check("C18.RAWACCEPT", "readString accepts every byte writeString emits raw", rs.Pos(), len(bad) == 0,
+		fmt.Sprintf("bytes %s are written as they are by the writer and refused by the reader: a string containing one does not parse back from its own SDL or JSON form", bad))
+	r.floor("C18.RAWACCEPT", "byte-dependent error returns of the string reader", nRet, 1)
 }
